@@ -4,6 +4,7 @@ from darr.utils import fit_frames
 from implutil import guarded
 
 _cache = {}
+CAP = 5000       # no case of the harness has more frames than this
 
 
 def _array(n, d):
@@ -21,11 +22,21 @@ def iterindices(case, d):
         a._shape = (n,)          # iterindices only reads self.shape[0]
     else:
         a = _array(n, d)
+    npt = case.get('nptype')     # start / end indices given as NumPy scalars of this type (e.g. taken from an index array)
+
+    def conv(v):
+        if npt is None or v is None or v < 0:
+            return v
+        return np.dtype(npt).type(v)
     for (c, s, st, en, flag) in case['args']:
         def f():
-            return [[int(x), int(y)] for x, y in
-                    a.iterindices(c, stepsize=s, startindex=st, endindex=en,
-                                  include_remainder=flag)]
+            import itertools
+            fr = [[int(x), int(y)] for x, y in
+                  itertools.islice(a.iterindices(c, stepsize=s, startindex=conv(st), endindex=conv(en),
+                                                 include_remainder=flag), CAP + 1)]
+            if len(fr) > CAP:
+                raise RuntimeError('more than %d frames: the iterator does not end' % CAP)
+            return fr
         r = guarded(f)
         out.append(r[:2])
     return out
@@ -39,11 +50,12 @@ def iterchunks(case, d):
     out = []
     for (c, s, st, en, flag) in case['args']:
         def f():
+            import itertools
             frames = [[int(x), int(y)] for x, y in
-                      a.iterindices(c, stepsize=s, startindex=st, endindex=en,
-                                    include_remainder=flag)]
-            chunks = list(a.iterchunks(c, stepsize=s, startindex=st, endindex=en,
-                                       include_remainder=flag))
+                      itertools.islice(a.iterindices(c, stepsize=s, startindex=st, endindex=en,
+                                                     include_remainder=flag), CAP)]
+            chunks = list(itertools.islice(a.iterchunks(c, stepsize=s, startindex=st, endindex=en,
+                                                        include_remainder=flag), CAP))
             same = len(chunks) == len(frames) and all(
                 ch.dtype == ref.dtype and ch.shape == ref[x:y].shape and
                 bool(np.array_equal(ch, ref[x:y])) for ch, (x, y) in zip(chunks, frames))
